@@ -13,7 +13,6 @@ import GormModel.Lemmas.WhereSwap
 import GormModel.Lemmas.SharedCell
 import GormModel.Lemmas.SharedConfig
 import GormModel.Lemmas.StmtWait
-import GormModel.Props.C14
 namespace Gorm
 open Gorm.SchemaCache
 
@@ -286,7 +285,7 @@ open Gorm.SW Gorm.SC in
     number of goroutines, texts, `PreparedStmtDB` structs, transactions, Reset/Close), for every entry whose
     `PrepareContext` failed, every operation that resolved to it — found under `RLock` or in the double check under `Lock`,
     or published it — and has returned, returned the PREPARATION ERROR: none returned rows, none left with a nil statement.
-    (Refinement `wrun_base` onto C14's LTS + `C14_failure_broadcast`.) -/
+    (Refinement `wrun_base` onto C14's LTS + C14's failure-broadcast invariant `FB`.) -/
 theorem C07_failed_prepare_every_waiter_gets_error (ops : List Op) (nV : Nat) (cfg : SC.Cfg) (sched : List Act)
     (hw : wfOps ops nV) (e : Nat) :
     let w := wrun (winit ops nV cfg allChecked) sched
@@ -296,7 +295,7 @@ theorem C07_failed_prepare_every_waiter_gets_error (ops : List Op) (nV : Nat) (c
   intro w he herr t r hent hres
   have hb : w.base = run (init ops nV cfg) sched := wrun_base (winit ops nV cfg allChecked) rfl sched
   rw [hb] at he herr hent hres
-  have := (C14_failure_broadcast ops nV cfg sched hw e he herr).1 t r hent hres
+  have := SW.failure_broadcast ops nV cfg sched hw e he herr t r hent hres
   subst this
   exact ⟨rfl, by decide, by decide⟩
 
@@ -349,6 +348,48 @@ theorem C07_prepare_error_own_partial (ops : List Op) (nV : Nat) (cfg : SC.Cfg) 
     · exact ⟨h, herr⟩
     · rw [h] at herr; cases herr
   next => cases hres
+
+open Gorm.SC in
+/-- F32 at model level (kernel-checked): goroutines 0 and 1 both hold their copy of the cached statement; the driver answers
+    goroutine 0's execution with `driver.ErrBadConn`; 0 evicts the entry and its `go stmt.Close()` runs; goroutine 1 then
+    executes a CLOSED statement and returns "sql: statement is closed" — alone, with the same broken connection, it returns
+    `driver.ErrBadConn` like goroutine 0. -/
+theorem C07_badconn_eviction_closes_held_counterexample :
+    let cfg : SC.Cfg := { guardFail := true, guardEvict := true }
+    let s := SC.run (SC.init [.use 0 0 false, .use 0 0 false] 1 cfg)
+      (List.replicate 5 (.thr 0 .ok) ++ List.replicate 2 (.thr 1 .ok) ++ [.thr 0 .ok, .thr 0 .bad, .thr 0 .ok, .closeH 0, .thr 1 .ok])
+    SC.result s 0 = some .badConn ∧ SC.result s 1 = some .stmtClosed ∧
+    SC.result (SC.run (SC.init [.use 0 0 false] 1 cfg) (List.replicate 6 (.thr 0 .ok) ++ [.thr 0 .bad, .thr 0 .ok])) 0 = some .badConn := by
+  decide
+
+open Gorm.SW Gorm.SC in
+/-- OUTSIDE THE F32 PATTERN (extra hypothesis = its negation: no operation has returned `ErrBadConn`, and no Reset/Close ran —
+    the F14a/F14c patterns of C14): in every state reachable by any schedule a goroutine that holds a statement of the pool
+    executes it, whatever the driver then answers — it never sees "sql: statement is closed".  (C14's invariants `Inv3`.) -/
+theorem C07_held_statement_executes_partial (ops : List Op) (nV : Nat) (cfg : SC.Cfg) (sched : List Act) (hw : wfOps ops nV) :
+    let s := (wrun (winit ops nV cfg allChecked) sched).base
+    ∀ t v q e h a, t < s.nT → (s.threads t).op = .use v q false → (s.threads t).pc = .ready e h →
+      ¬ rcDone s → ¬ badDone s → act s (.thr t a) = some (setPc s t (.using e h)) := by
+  intro s
+  have hb : s = run (init ops nV cfg) sched := wrun_base (winit ops nV cfg allChecked) rfl sched
+  rw [hb]
+  obtain ⟨h2, h3⟩ := inv3_reachable ops nV cfg hw sched
+  obtain ⟨_, hRC, hBC, hCL, hUT⟩ := h3
+  intro t v q e h a ht hop hpc hnr hnb
+  have h7 := (h2.1.1.1 t).2.2.2.2.2.2.1 e h (Or.inl hpc)
+  have htx : ((run (init ops nV cfg) sched).entries e).tx = false := (hUT t e h7.2.2.2.2).2 v q hop
+  have hh := h2.2.2.2.1.2 e h h7.1 h7.2.2.2.1
+  have hh1 := h2.2.2.2.1.1 h hh.1
+  rw [hh.2] at hh1
+  have hhtx : ((run (init ops nV cfg) sched).handles h).tx = false := by rw [← hh1.2.2.1]; exact htx
+  have hcl : ((run (init ops nV cfg) sched).handles h).closed = false := by
+    cases hc : ((run (init ops nV cfg) sched).handles h).closed with
+    | false => rfl
+    | true =>
+      rcases hCL h hh.1 hhtx hc with c | c
+      · exact absurd (hBC h hh.1 c) hnb
+      · rw [hh.2] at c; exact absurd (hRC e h7.1 c) hnr
+  simp [act, ht, tstep, hop, hpc, stepUse, hcl]
 
 /-- the double-check schedule: both goroutines miss under RLock, 0 publishes, 1 finds the entry under Lock, 0's prepare fails -/
 def swSchedDouble : List SC.Act :=
